@@ -10,6 +10,15 @@ from vf.ref import iso_ref
 EBCDIC = ('cp500', 'cp037', 'cp1140', 'cp273')
 
 
+def enc_of(case):
+    """'default' = the caller passes no encoding; the documentation says the default is latin_1"""
+    return 'latin_1' if case['enc'] == 'default' else case['enc']
+
+
+def lib_enc(case):
+    return None if case['enc'] == 'default' else case['enc']
+
+
 def case_key(case):
     return (case['cfg'], case['enc'], case['hex'], repr(case['f']), repr(case.get('pds')), case.get('mti'))
 
@@ -17,7 +26,7 @@ def case_key(case):
 def check_roundtrip(case, acc, sigp='c01'):
     from cardutil import iso8583
     msg, exp, cfg = isogen.build_message(case)
-    kw = dict(encoding=case['enc'], iso_config=isogen.lib_cfg(case), hex_bitmap=case['hex'])
+    kw = dict(encoding=lib_enc(case), iso_config=isogen.lib_cfg(case), hex_bitmap=case['hex'])
     try:
         data = iso8583.dumps(copy.deepcopy(msg), **kw)
     except Exception as ex:
@@ -57,8 +66,8 @@ def _same_bitmap_hex(lib, ref, enc):
 def check_conformance(case, acc, sigp='c02'):
     from cardutil import iso8583
     msg, exp, cfg = isogen.build_message(case)
-    enc, hx = case['enc'], case['hex']
-    kw = dict(encoding=enc, iso_config=isogen.lib_cfg(case), hex_bitmap=hx)
+    enc, hx = enc_of(case), case['hex']
+    kw = dict(encoding=lib_enc(case), iso_config=isogen.lib_cfg(case), hex_bitmap=hx)
     over = any(k == 'OVER' for _, k, _ in case['f'])
     if over:
         try:
@@ -414,7 +423,7 @@ def plan(tier, seed, which):
     """-> list of tasks (family, cfg, enc, hex, bit)"""
     ts = []
     if tier == 'quick':
-        combos = [('PKG', e, h) for e in isogen.ENCODINGS_QUICK for h in (False, True)]
+        combos = [('PKG', e, h) for e in isogen.ENCODINGS_QUICK + ['default'] for h in (False, True)]
         gens = ['GEN%d' % ((seed + i * 5) % 14) for i in range(2)]
         combos += [(g, e, False) for g in gens for e in ('latin_1', 'cp500')]
         combos += [(gens[0], 'cp037', True), (gens[1], 'ascii', True)]
@@ -424,7 +433,7 @@ def plan(tier, seed, which):
         pair_combos += [('PKGS', 'latin_1', False), (gens[0] + 'S', 'cp500', False)]
         order_combos = [('PKGS', 'latin_1', False), (gens[0] + 'S', 'cp500', False)]
     else:
-        combos = [('PKG', e, h) for e in isogen.ENCODINGS_ALL for h in (False, True)]
+        combos = [('PKG', e, h) for e in isogen.ENCODINGS_ALL + ['default'] for h in (False, True)]
         combos += [('GEN%d' % s, e, h) for s in range(14)
                    for (e, h) in (('latin_1', False), ('cp500', False), ('cp037', True), ('ascii', True),
                                   (isogen.ENCODINGS_ALL[4 + s % 4], bool(s % 2)))]
